@@ -121,6 +121,11 @@ func (c *Compiler) Compile(node parser.Node) error {
 		if err := c.emit(OpMap, len(node.Pairs)); err != nil {
 			return err
 		}
+	case *parser.EmptyStmt:
+		// blank lines and comments compile to nothing
+	default:
+		// not yet supported by the compiler: never leave a node out silently
+		return fmt.Errorf("%w: %T at %s", ErrUnsupportedExpression, node, node.Token().Location())
 	}
 	return nil
 }
@@ -518,7 +523,7 @@ func (c *Compiler) compileAssignment(stmt *parser.AssignmentStmt) error {
 		}
 		return c.emit(OpSetIndex)
 	}
-	return c.Compile(stmt.Target)
+	return fmt.Errorf("%w: assignment target %T at %s", ErrUnsupportedExpression, stmt.Target, stmt.Target.Token().Location())
 }
 
 func (c *Compiler) compileVar(variable *parser.Var) error {
